@@ -12,6 +12,10 @@ CLAUSE = ("for both XDS implementations (vbi_xds_demux_feed; caption.c xds_separ
           "start assigns the checksum afresh; delivery (callback / xds_decoder) is dominated by checksum&0x7F == 0, count > 2 and "
           "the parity test; xds_decoder's length assertion cannot fail for any count the writers can produce; a caption control "
           "code on field 2 clears the XDS routing flag and data bytes reach the XDS separator only while it is set.")
+CLAUSE = CLAUSE + (" Every path through the packet-header branch of the assemblers (class/type bytes 0x01 ... 0x0E) assigns the "
+                   "current-packet pointer - to the addressed sub-packet or to NULL - so the payload of an ignored (unsupported) "
+                   "packet can never be appended to the packet it interrupted; in xds_strfu no term OR-ed into the 'content "
+                   "changed' result is a compile-time constant (the old terminator byte is read before it is overwritten).")
 NOT_DECIDED = ("exactly-once delivery under interleaving, equality of the delivered bytes with the sent ones, content decoding "
                "into vbi_program_info (values).")
 
@@ -171,6 +175,8 @@ def run(ctx, run):
 
     # ---- field-2 routing -----------------------------------------------------------------
     _routing(ctx, run)
+    _header_rebinds_current(ctx, run)
+    _change_flag_not_vacuous(ctx, run)
 
 
 def _canon(f, node):
@@ -424,3 +430,73 @@ def _routing(ctx, run):
                 run.violation("RF-DOM", key, "xds_separator is called for a byte that is neither an XDS header (0 < c1 <= 0x0F) nor "
                               "inside XDS mode (cc->xds): caption data would be stored as XDS payload", ex.loc(f, i))
     run.floor("xds_separator call sites in vbi_decode_caption", n, 3)
+
+
+def _header_rebinds_current(ctx, run):
+    """A new header byte pair ends whatever packet was being continued: every path of the header
+    case stores curr_sp."""
+    P = ctx.prog
+    n = 0
+    for im in IMPLS:
+        f = P.need(im["fn"], im["unit"])
+        run.touch(f)
+        F_CUR = "%s.curr_sp" % im["owner"]
+        st_cur = lambda ff, ii: any(lhs is not None and ff.exprs[ex.skip(ff, lhs)]["k"] == "mem"
+                                    and ff.exprs[ex.skip(ff, lhs)].get("in") == im["owner"]
+                                    and ff.exprs[ex.skip(ff, lhs)]["member"] == "curr_sp" for lhs, var, o, r in flow.stores(ff, ii))
+        # the header case: blocks dominated by a switch edge whose label covers 1 ... 14 (or the if-form c1 <= 14)
+        heads = []
+        for bid in f.rpo():
+            for succ, lab in f.edges(bid):
+                if isinstance(lab, tuple) and lab[1] <= 1 and lab[2] >= 14 and lab[2] < 0x20:
+                    heads.append(succ)
+        if not heads:
+            raise AnalysisBroken("%s: the packet header case (1 ... 14) was not found" % f.name)
+        for h in heads:
+            n += 1
+            hit = {b for b, ev in flow.all_events(f) if st_cur(f, ev)}
+            # exits reachable from the case head without passing a store to curr_sp
+            seen, stack, bad = set(), [h], None
+            while stack:
+                b = stack.pop()
+                if b in seen or b in hit:
+                    continue
+                seen.add(b)
+                if b == f.exit:
+                    bad = b
+                    break
+                for s2, _ in f.edges(b):
+                    stack.append(s2)
+            key = "RF-CORR:%s:header-rebinds-current" % f.name
+            if bad is None:
+                run.holds("RF-CORR", key, "every path of the packet-header case assigns %s" % F_CUR, "%s:%d" % (f.file, f.line))
+            else:
+                run.violation("RF-CORR", key, "a path of the packet-header case returns without assigning %s: after the header of an "
+                              "unsupported packet the previous packet stays current, receives the foreign payload and terminator, "
+                              "and is lost to a checksum error" % F_CUR, "%s:%d" % (f.file, f.line), witness={"function": f.name})
+    run.floor("packet header cases", n, 2)
+
+
+def _change_flag_not_vacuous(ctx, run):
+    f = ctx.prog.need("xds_strfu", "src/caption.c")
+    run.touch(f)
+    an = ctx.analysis(f, False)
+    n = 0
+    for bid, i in flow.all_events(f):
+        e = f.exprs[i]
+        if e["k"] == "asg" and e["op"] == "|=":
+            l = f.exprs[ex.skip(f, e["c"][0])]
+            if l["k"] != "ref":
+                continue
+            n += 1
+            st = an.state_before_expr(i)
+            v = an.eval(st, e["c"][1]) if st is not None else (None, None)
+            key = "RF-DEP:xds_strfu:change-term:%d" % n
+            if v[0] is not None and v[0] == v[1]:
+                run.violation("RF-DEP", key, "`%s` ORs the constant %d into the 'content changed' result: the location it reads was "
+                              "just overwritten, so the old value is never compared - a new string that is a prefix of the stored "
+                              "one is reported as unchanged and never announced" % (ex.pretty(f, i), v[0]), ex.loc(f, i),
+                              witness={"function": f.name, "value": v[0]})
+            else:
+                run.holds("RF-DEP", key, "`%s` compares a value that is not known at compile time" % ex.pretty(f, i), ex.loc(f, i))
+    run.floor("terms of the change flag in xds_strfu", n, 2)
